@@ -191,9 +191,17 @@ func (s *spSim) apply(op *spOp) {
 		r.Event("sysqos %+v", s.sysqos)
 		r.Sample("sysqos %+v", s.sysqos)
 	case "restart":
+		// a new agent incarnation: fresh executor cache and policy statuses, the cgroup files stay as the old one left them.
+		// Its informer may deliver the NodeResourceTopology only after the first rounds (TopoLag); the object in the API is
+		// unaffected and keeps following the reserve / sysqos / kubelet ops.
+		s.topoLag = 0
+		if op.TopoLag > 0 {
+			s.topoLag = op.TopoLag
+			r.Probe("agent-restart-topo-lags")
+		}
 		s.newAgent()
-		r.Event("agent restart")
-		r.Sample("agent restart")
+		r.Event("agent restart topo_lag=%d", s.topoLag)
+		r.Sample("agent restart (NodeResourceTopology delivered after %d rounds)", s.topoLag)
 		r.Probe("agent-restart")
 	case "informer":
 		if s.off[op.What] == !op.On {
@@ -233,7 +241,7 @@ type spExp struct {
 	tol        int64 // float truncation allowance of the code under test: budget .. budget+tol
 	acts       bool  // every input the agent needs is available: a derived set / quota is expected
 	mode       string
-	protKnown  bool
+	topoSeen   bool // the agent's informer holds the NodeResourceTopology in this round
 	reserved   map[int]bool
 	sysx       map[int]bool
 	lse        map[int]bool
@@ -296,27 +304,33 @@ func (s *spSim) expectation() *spExp {
 	}
 	e.step = (s.n + 9) / 10
 	pods := s.visiblePods()
-	// protected CPUs as far as the agent's inputs tell
-	if !s.off["topo"] {
-		e.protKnown = true
-		e.reserved, e.sysx, e.lse = map[int]bool{}, map[int]bool{}, map[int]bool{}
-		if s.reserve.Bad == 0 {
-			e.reserved = spSet(s.reserve.CPUs)
-		}
-		if s.sysqos.Bad == 0 && s.sysqos.Excl != 2 {
-			e.sysx = spSet(s.sysqos.CPUs)
-		}
-		for _, p := range pods {
-			if p.qos == "LSE" && !p.badAnno {
-				for _, c := range p.cpus {
-					e.lse[c] = true
-				}
+	// Protected CPUs as DECLARED BY THE NODE'S OBJECTS, not as far as the agent has seen them: the reservation and the
+	// system-QoS annotation of the NodeResourceTopology stored in the simulated API (s.reserve / s.sysqos, whether or not
+	// this agent incarnation's informer has delivered the object yet), and the cpuset annotations of the LSE pods in the
+	// pod list. For pods there is no "stored but not yet observed" window to judge: the agent's pod list is the kubelet's,
+	// the real pods informer never hands out an empty list once it has synced (it ignores an empty kubelet answer,
+	// statesinformer/impl/states_pods.go syncPods) and the QoS manager starts only after that sync. A round with an
+	// unavailable pod list (informer op "pods") is an over-approximation kept for robustness (no crash, reserved and
+	// system-QoS exclusions); judging it against the pods of the model reports the disabled-path recovery putting BE on
+	// LSE CPUs - a history the real agent cannot be in.
+	e.topoSeen = s.topoSeen()
+	e.reserved, e.sysx, e.lse = map[int]bool{}, map[int]bool{}, map[int]bool{}
+	if s.reserve.Bad == 0 {
+		e.reserved = spSet(s.reserve.CPUs)
+	}
+	if s.sysqos.Bad == 0 && s.sysqos.Excl != 2 {
+		e.sysx = spSet(s.sysqos.CPUs)
+	}
+	for _, p := range pods {
+		if p.qos == "LSE" && !p.badAnno {
+			for _, c := range p.cpus {
+				e.lse[c] = true
 			}
 		}
-		for _, id := range s.ids {
-			if !e.reserved[id] && !e.sysx[id] && !e.lse[id] {
-				e.elig = append(e.elig, id)
-			}
+	}
+	for _, id := range s.ids {
+		if !e.reserved[id] && !e.sysx[id] && !e.lse[id] {
+			e.elig = append(e.elig, id)
 		}
 	}
 	// budget
@@ -365,10 +379,13 @@ func (s *spSim) expectation() *spExp {
 		e.mode = "idle"
 	case !s.slo.Enable:
 		e.mode = "disabled"
-	case !e.haveBudget || len(pods) == 0 || s.off["cpuinfo"] || s.off["topo"]:
+	case !e.haveBudget || len(pods) == 0 || s.off["cpuinfo"]:
 		e.mode = "idle"
 	case s.slo.Policy == "cfsQuota":
+		// the quota needs nothing from the NodeResourceTopology: it is due also while the topology is not delivered
 		e.mode, e.acts = "quota", true
+	case !e.topoSeen:
+		e.mode = "idle"
 	case s.kubelet == "static":
 		e.mode, e.acts = "cpuset-static", true
 	default:
@@ -403,6 +420,16 @@ func (s *spSim) doRound(op *spOp) {
 	s.tagHistory(e, before, quotaBefore)
 
 	s.journal, s.failed, s.appeared, s.roundFaults, s.readFailed = nil, map[string]bool{}, map[string]bool{}, 0, false
+	s.wrote = map[string]bool{}
+	if !e.topoSeen {
+		r.Probe("round-topo-not-delivered")
+		if len(e.reserved)+len(e.sysx) > 0 {
+			r.Probe("round-topo-not-delivered-declares-protected-cpus")
+			if s.topoLag > 0 && !s.off["slo"] && !s.off["cpuinfo"] && (!s.slo.Enable || (s.slo.Policy == "cfsQuota" && e.haveBudget && len(s.visiblePods()) > 0)) {
+				r.Probe("round-topo-not-delivered-after-restart-on-recover-path")
+			}
+		}
+	}
 	s.inRound = true
 	// REAL code under test. A panic here propagates to the framework, which reports it as C10/panic/<file:line>.
 	s.cs.suppressBECPU()
@@ -426,6 +453,12 @@ func (s *spSim) doRound(op *spOp) {
 	r.Probe("round-" + e.mode)
 	if s.roundFaults == 0 {
 		r.Probe("round-fault-free")
+	}
+	if s.topoLag > 0 {
+		if s.topoLag--; s.topoLag == 0 {
+			r.Event("NodeResourceTopology delivered to the agent")
+			r.Probe("topo-delivered-after-lag")
+		}
 	}
 }
 
@@ -478,7 +511,7 @@ func (s *spSim) observeBudget(e *spExp) {
 	if e.budget < 2000 {
 		r.Probe("budget-below-2")
 	}
-	if e.protKnown && int(e.budget/1000) > len(e.elig) {
+	if int(e.budget/1000) > len(e.elig) {
 		r.Probe("budget-above-eligible")
 	}
 	if s.slo.Min >= 0 && e.budget == int64(s.n)*1000*s.slo.Min/100 {
@@ -548,7 +581,7 @@ func (s *spSim) observeBudget(e *spExp) {
 
 // samplePolicy calls the real calculateBESuppressCPUSetPolicy on the eligible pool of this round with a sampled count.
 func (s *spSim) samplePolicy(e *spExp) {
-	if !e.protKnown || len(e.elig) == 0 {
+	if len(e.elig) == 0 {
 		return
 	}
 	r := s.r
@@ -622,9 +655,22 @@ func (s *spSim) tagHistory(e *spExp, before map[string]string, quotaBefore int64
 		if t := spMin(e.wHi, spSize(before[root])+e.step); len(e.elig) < t {
 			r.Tag("eligible-below-wanted")
 		}
+		// Recorded defect: the agent limits the growth to (size of the BE ROOT's cpuset + step), the statement to (size of the
+		// set the BE containers run on + step). The history class is every round in which the two limits give different
+		// targets for some container - in either direction: normally the root holds every unprotected CPU and the containers
+		// jump past their step; with a root left smaller than the containers (its write failed in an earlier round) the
+		// containers get fewer CPUs than the budget and their own step allow. Same size of root and container (e.g. right
+		// after the none policy, or a cgroup just created from its parent) is not in the class.
+		rootSize := spSize(before[root])
 		for _, c := range s.dirsAtDepth(before, 2) {
-			if e.wHi > spSize(before[c])+e.step {
-				r.Tag("static-policy-scale-up")
+			own := spSize(before[c])
+			for _, w := range []int{e.wLo, e.wHi} {
+				if spMin(w, rootSize+e.step) != spMin(w, own+e.step) {
+					r.Tag("static-policy-scale-up")
+					if rootSize < own {
+						r.Probe("static-policy-root-smaller-than-container")
+					}
+				}
 			}
 		}
 	case e.mode == "quota":
@@ -635,6 +681,13 @@ func (s *spSim) tagHistory(e *spExp, before map[string]string, quotaBefore int64
 			}
 		}
 	}
+}
+
+func (s *spSim) topoWhy() string {
+	if s.topoLag > 0 {
+		return fmt.Sprintf("%d more round(s) after the agent's start", s.topoLag)
+	}
+	return "informer object unavailable"
 }
 
 func spQuotaTarget(budget int64) int64 {
@@ -655,14 +708,29 @@ func (s *spSim) checkSet(e *spExp, where, dir, content string) []int {
 		if !s.isID[c] {
 			r.Fail("cpu-not-existing", where, "%s: cpuset.cpus %q contains CPU %d which the node does not have", dir, content, c)
 		}
+		kind, what := "", ""
 		switch {
 		case e.lse[c]:
-			r.Fail("protected-cpu", "lse/"+where, "%s: cpuset.cpus %q contains CPU %d exclusively owned by an LSE pod", dir, content, c)
+			kind, what = "lse", "exclusively owned by an LSE pod"
 		case e.reserved[c]:
-			r.Fail("protected-cpu", "reserved/"+where, "%s: cpuset.cpus %q contains CPU %d reserved for the node", dir, content, c)
+			kind, what = "reserved", "reserved for the node"
 		case e.sysx[c]:
-			r.Fail("protected-cpu", "system-qos/"+where, "%s: cpuset.cpus %q contains CPU %d exclusive to system QoS", dir, content, c)
+			kind, what = "system-qos", "exclusive to system QoS"
+		default:
+			continue
 		}
+		if !e.topoSeen {
+			// The agent wrote this cgroup although its informer had not delivered the NodeResourceTopology: the reservation /
+			// system-QoS exclusivity is declared by the object in the API all the same. None of the recorded defects is
+			// about such a round (they all need the derived set, which needs the topology; without it the agent is to leave
+			// the cpusets alone), so their history tags do not belong to this signature.
+			for _, t := range []string{"eligible-below-wanted", "static-policy-scale-up", "quota-unset-within-deadband"} {
+				r.Untag(t)
+			}
+			r.Fail("protected-cpu", kind+"/"+where+"/topology-not-delivered", "%s: cpuset.cpus %q written by the agent contains CPU %d %s (declared by the node's objects in the API; the agent's informer had not delivered the NodeResourceTopology yet: %s)",
+				dir, content, c, what, s.topoWhy())
+		}
+		r.Fail("protected-cpu", kind+"/"+where, "%s: cpuset.cpus %q contains CPU %d %s", dir, content, c, what)
 	}
 	return cpus
 }
@@ -702,16 +770,20 @@ func (s *spSim) checkRound(e *spExp, before, after map[string]string, quotaBefor
 	where := func(d string) string { return []string{"root", "pod", "container"}[s.depth(d)] }
 	failed := func(d string) bool { return s.failed[d+"/"+system.CPUSetCPUSName] }
 
-	// 1. whatever the agent wrote this round is made of existing, unprotected CPUs
-	if e.protKnown {
-		for _, d := range dirs {
-			b, had := before[d]
-			if !had || b == after[d] || failed(d) || s.appeared[d] {
-				continue
-			}
-			r.OracleEval()
-			s.checkSet(e, where(d), d, after[d])
+	// 1. whatever the agent wrote this round is made of existing CPUs that the node's objects do not declare protected
+	//    (LSE-owned, node-reserved, system-QoS exclusive) - whether or not the agent has observed those objects yet.
+	//    "Wrote": the file differs from before the round, or the agent's last write to it in this round went through (a
+	//    fresh incarnation rewrites everything, also with the value the file already had).
+	for _, d := range dirs {
+		b, had := before[d]
+		if !had || failed(d) || s.appeared[d] || (b == after[d] && !s.wrote[d]) {
+			continue
 		}
+		r.OracleEval()
+		if !e.topoSeen {
+			r.Probe("cpuset-written-before-topo-delivered")
+		}
+		s.checkSet(e, where(d), d, after[d])
 	}
 	if !e.acts {
 		if len(s.journal) == 0 {
@@ -748,7 +820,10 @@ func (s *spSim) checkRound(e *spExp, before, after map[string]string, quotaBefor
 		}
 	case "quota":
 		s.checkQuota(e, quotaBefore, quotaAfter)
-		applied = true
+		applied = e.topoSeen // the cpusets are recovered to the unprotected CPUs only once the topology is known
+		if !e.topoSeen {
+			r.Probe("quota-checked-before-topo-delivered")
+		}
 	}
 	// 2. children within parents once a fault-free round applied a set
 	if applied && s.roundFaults == 0 {
